@@ -196,7 +196,7 @@ pub fn run(ctx: &Ctx) {
         .cloned()
         .collect();
     let subs = subsets(names.len(), 2);
-    let params = TreeParams { min_nodes: 0, max_nodes: ctx.tier.pick(3, 4), max_decorated: 2, root_from_subset: false, shard: (0, 1) };
+    let params = TreeParams { min_nodes: 0, max_nodes: ctx.tier.pick(3, 4), max_decorated: ctx.tier.pick(1, 2), root_from_subset: false, shard: (0, 1) };
     let res2 = par_for(
         subs.len() as u64,
         ctx.threads,
